@@ -86,6 +86,37 @@ fn files_digest(dir: &str) -> String {
 
 pub const SECTIONS: [&str; 8] = ["outs", "txs", "ctxs", "idx", "files", "active", "scanned", "init"];
 
+/// the IN-MEMORY state of the open wallet that an owner holding the right token can observe:
+/// which keychain the right token unlocks (digest of the rewind hash = root public key; an error
+/// class when it unlocks nothing), the active account as the API reports it (the account whose
+/// summary / addresses the next right-token calls act on) and the account list
+fn volatile_state(w: &mut World, wn: &str) -> Value {
+	use vharness::libwallet::api_impl::owner;
+	let inst = w.inst(wn);
+	let mask = w.mask(wn);
+	let kc = match guarded(|| owner::get_rewind_hash(inst.clone(), mask.as_ref())) {
+		Outcome::Ok(h) => hex8(h.as_bytes()),
+		o => o.res(),
+	};
+	let acct = w.with(wn, |wi, _| {
+		let active = wi.parent_key_id();
+		let l: Vec<String> = wi
+			.acct_path_iter()
+			.map(|a| format!("{}={}{}", a.label, vharness::world::acct_str(&a.path), if a.path == active { "*" } else { "" }))
+			.collect();
+		Ok(l.join(","))
+	});
+	let accts = match acct {
+		Outcome::Ok(s) => s,
+		o => o.res(),
+	};
+	let addr = match guarded(|| owner::get_slatepack_address(inst, mask.as_ref(), 0)) {
+		Outcome::Ok(a) => hex8(format!("{}", a).as_bytes()),
+		o => o.res(),
+	};
+	json!({"keychain": kc, "accounts": accts, "address": addr})
+}
+
 /// observed store of wallet `wn`: file digest + one digest per section of the projection
 fn observe(w: &mut World, wn: &str) -> Value {
 	let files = files_digest(&w.wallets[wn].dir);
@@ -95,9 +126,13 @@ fn observe(w: &mut World, wn: &str) -> Value {
 		let v = o.get(*s).cloned().unwrap_or(Value::Null);
 		proj.insert(s.to_string(), json!(hex8(v.to_string().as_bytes())));
 	}
+	let vol = volatile_state(w, wn);
+	proj.insert("keychain".to_string(), vol["keychain"].clone());
+	proj.insert("accounts".to_string(), json!(hex8(vol["accounts"].as_str().unwrap_or("").as_bytes())));
+	proj.insert("address".to_string(), vol["address"].clone());
 	let readable = o.get("outs").is_some();
 	let full = if std::env::var("VERIF_MASK_DEBUG").is_ok() { o.clone() } else { Value::Null };
-	json!({"files": files, "proj": proj, "readable": readable, "full": full,
+	json!({"files": files, "proj": proj, "readable": readable, "full": full, "vol": vol,
 		"nouts": o["outs"].as_object().map(|m| m.len()).unwrap_or(0),
 		"ntxs": o["txs"].as_object().map(|m| m.len()).unwrap_or(0),
 		"nctx": o["ctxs"].as_object().map(|m| m.len()).unwrap_or(0),
